@@ -239,11 +239,25 @@ fn emit_kop<K: Kmer>(sink: &Sink, ty: &str, regs: &mut Vec<K>, dst: usize, src: 
 }
 
 /// Random register-machine history on one k-mer type; the same string is reached by different routes on purpose.
+/// The width a shipped k-mer type is NAMED for (not what it reports): `KmerN` = IntKmer over a storage word of 2N bits,
+/// or VarIntKmer with the size marker `KN`.
+pub fn nominal_k<K: Kmer>() -> usize {
+    let ty = std::any::type_name::<K>();
+    if let Some(i) = ty.rfind("::K") {
+        let digits: String = ty[i + 3..].chars().take_while(|c| c.is_ascii_digit()).collect();
+        if let Ok(n) = digits.parse::<usize>() {
+            return n;
+        }
+    }
+    if ty.contains("IntKmer<u8>") { 4 } else if ty.contains("IntKmer<u16>") { 8 } else if ty.contains("IntKmer<u32>") { 16 }
+    else if ty.contains("IntKmer<u64>") { 32 } else if ty.contains("IntKmer<u128>") { 64 } else { K::k() }
+}
+
 pub fn kmer_history<K: Kmer + Send + Sync>(sink: &Sink, r: &mut Rng, steps: usize) {
     let k = K::k();
     let ty = std::any::type_name::<K>().replace("debruijn::kmer::", "");
     let nregs = 3;
-    sink.emit(json!({"op":"begin","dom":"kmer","ty":ty,"K":k,"nregs":nregs,"case":0,"panic":""}));
+    sink.emit(json!({"op":"begin","dom":"kmer","ty":ty,"K":k,"Knom":nominal_k::<K>(),"nregs":nregs,"case":0,"panic":""}));
     let mut regs: Vec<K> = vec![K::empty(); nregs];
     for step in 0..steps {
         let dst = r.below(nregs);
@@ -352,7 +366,7 @@ pub fn kmer_exhaustive<K: Kmer + Send + Sync>(sink: &Sink, r: &mut Rng, limit: u
         }
     }
     for v in values {
-        sink.emit(json!({"op":"begin","dom":"kmer","ty":ty,"K":k,"nregs":2,"case":0,"panic":""}));
+        sink.emit(json!({"op":"begin","dom":"kmer","ty":ty,"K":k,"Knom":nominal_k::<K>(),"nregs":2,"case":0,"panic":""}));
         let mut regs: Vec<K> = vec![K::empty(); 2];
         if !emit_kop::<K>(sink, &ty, &mut regs, 0, 0, &KOp::FromBytes(v.clone())) {
             continue;
@@ -1536,7 +1550,7 @@ fn replay_one<K: Kmer + Send + Sync>(sink: &Sink, v: &Value) {
         "from_rank" => KOp::FromRank(jbytes(&a[0])),
         _ => return,
     };
-    sink.emit(json!({"op":"begin","dom":"kmer","ty":ty,"K":K::k(),"nregs":2,"case":0,"panic":""}));
+    sink.emit(json!({"op":"begin","dom":"kmer","ty":ty,"K":K::k(),"Knom":nominal_k::<K>(),"nregs":2,"case":0,"panic":""}));
     let mut regs: Vec<K> = vec![K::empty(); 2];
     if emit_kop::<K>(sink, &ty, &mut regs, 0, 0, &KOp::FromBytes(pre)) {
         emit_kop::<K>(sink, &ty, &mut regs, 1, 0, &op);
